@@ -1134,12 +1134,12 @@ func TestC18(t *testing.T) {
 	}, evalRestart)
 
 	r.SetRule("histories", "generated histories (7..62 operations) of the state interfaces against the real SQLite store and a reference model (maps): NewToken for all four protocols, every session setter/getter of the token's protocol with all value shapes (7 key-exchange sessions × 3 stages incl. both ASYMKEX sizes, 5 RvInfo shapes up to 40 directives, devmod with/without optional fields and 0..300 modules, both HMAC sizes, MTUs 0..65535 incl. 32767/32768, certificate chains of 1 and 2), InvalidateToken, close-and-reopen of the database file, attempts with 8 kinds of illegitimate token (empty, garbage, truncated, one character changed, extended, issued by another database, ...), AddVoucher / ReplaceVoucher / RemoveVoucher, SetRVBlob with past and future expiry. Oracle after every read, after every reopen and at the end (before and after a final reopen): each field of each token reads back exactly what the model holds for that token (restored key-exchange sessions must also complete the exchange and talk to the device side), unset fields give ErrNotFound, invalidated/illegitimate tokens give errors on read, write and invalidate and leave no trace, vouchers and rendezvous blobs match the model, expired blobs are not found. Non-trivial: ≥ 2 tokens and a reopen or an illegitimate token.")
-	ev.Rapid(r, "histories", ev.N{Quick: 480, Thorough: 9600}, genHistory, evalHistory)
+	ev.Rapid(r, "histories", ev.N{Quick: 480, Thorough: 4800}, genHistory, evalHistory)
 	r.SetRule("concurrent-sessions", "2..16 goroutines use ONE *sqlite.DB at the same time; each creates its own tokens (all four protocols), stores 4 fields per token, reads them back, tries a token of another database, invalidates every other token and reads again; 4..16 rounds per goroutine. Oracle: no call on a session's own fresh token fails, every value read is the value stored through that token, foreign and invalidated tokens read nothing, no panic. Schedules are whatever the Go scheduler produces (not enumerated).")
-	ev.Rapid(r, "concurrent-sessions", ev.N{Quick: 64, Thorough: 1200}, func(t *rapid.T) concCase {
+	ev.Rapid(r, "concurrent-sessions", ev.N{Quick: 64, Thorough: 480}, func(t *rapid.T) concCase {
 		return concCase{Workers: rapid.SampledFrom([]int{2, 4, 8, 8, 16}).Draw(t, "workers"), Rounds: rapid.IntRange(4, 16).Draw(t, "rounds"), Seed: rapid.IntRange(0, 1<<16).Draw(t, "seed")}
 	}, evalConcurrent)
-	ev.Rapid(r, "restarts", ev.N{Quick: 48, Thorough: 800}, func(t *rapid.T) restartCase {
+	ev.Rapid(r, "restarts", ev.N{Quick: 48, Thorough: 400}, func(t *rapid.T) restartCase {
 		n := rapid.IntRange(1, 4).Draw(t, "n")
 		var at []int
 		for i := 0; i < n; i++ {
